@@ -323,9 +323,11 @@ def generate(cls, rng):
         threads = [[["obs", rng.randrange(0, 400)]
                     for _ in range(rng.randrange(2, 8))]
                    for _ in range(nthreads)]
-        kind = rng.choice(["random", "random", "pb", "pct"])
+        kind = rng.choice(["random", "random", "pb", "pct", "pbx", "pbx"])
         if kind == "random":
             strat = dict(kind="random", p=rng.choice([0.02, 0.1, 0.3, 1.0]))
+        elif kind == "pbx":
+            strat = dict(kind="pbx", k=rng.choice([1, 1, 2, 3]))
         elif kind == "pb":
             strat = dict(kind="pb", k=rng.choice([1, 2, 3]),
                          horizon=rng.choice([100, 400, 1500]))
